@@ -361,6 +361,35 @@ int main(int argc, char** argv)
   for (int sig : { SIGSEGV, SIGBUS, SIGFPE, SIGILL, SIGABRT }) {
     signal(sig, on_crash);
   }
+  if (argc >= 2 && std::string(argv[1]) == "--capacity") {
+    // how many entry points does this backend offer per sandbox? Measured, not assumed: distinct
+    // functions are registered on a fresh sandbox until the first refusal (0 = more than the pool)
+    RS probe;
+#if defined(BK_NOOP)
+    probe.create_sandbox();
+#elif defined(BK_DYLIB)
+    if (argc < 3) {
+      return 2;
+    }
+    probe.create_sandbox(argv[2]);
+#else
+    probe.create_sandbox(&libs[1]);
+#endif
+    std::vector<OwnA> held;
+    int n = 0;
+    try {
+      for (auto& kv : poolA) {
+        held.push_back(probe.register_callback(kv.second));
+        n++;
+      }
+      n = 0;
+    } catch (const std::runtime_error&) {
+    }
+    std::printf("%d\n", n);
+    held.clear();
+    probe.destroy_sandbox();
+    return 0;
+  }
   if (argc < 3) {
     return 2;
   }
